@@ -613,6 +613,18 @@ def _holds_rt_annotation(ctx, inp, io):
     return None if ok else "export after import does not reproduce the annotation"
 
 
+def _safe(h):
+    def holds(ctx, inp, io):
+        try:
+            return h(ctx, inp, io)
+        except Exception as e:  # noqa: BLE001 - an output of unexpected shape fails the monitor, it does not crash the check
+            return "round-trip monitor could not evaluate the output: %s" % (repr(e)[:300],)
+    return holds
+
+
+_holds_rt_segment, _holds_rt_bbox = _safe(_holds_rt_segment), _safe(_holds_rt_bbox)
+_holds_rt_sequence, _holds_rt_annotation = _safe(_holds_rt_sequence), _safe(_holds_rt_annotation)
+
 OPS = {
     "term_key": Op("term_key", _impl_term_key),
     "label_to_tags": Op("label_to_tags", _impl_label_to_tags),
@@ -651,6 +663,9 @@ def _defaults_obligation(ctx):
         return {k: v.default for k, v in inspect.signature(f).parameters.items() if v.default is not inspect.Parameter.empty}
     lt, lf, lfs = d(cio.label_to_tags), d(cio.label_from_tag), d(cio.label_from_tags)
     from soundevent.io.crowsetta import labels
+    if getattr(labels, "EMPTY_LABEL", None) is None:
+        ctx.fail("obligation", "keyword_defaults", detail="labels.EMPTY_LABEL is gone", extra={"op": "defaults"})
+        return
     adj = {f.__name__: d(f).get("adjust_time_expansion") for f in
            (cio.segment_to_annotation, cio.bbox_to_annotation, cio.sequence_to_annotations, cio.annotation_to_clip_annotation)}
     empties = list(lt.get("empty_labels") or [])
@@ -715,19 +730,44 @@ def _opt(name, present):
     return f"(some {name})" if present else "none"
 
 
+_MISSING = object()
+
+
+class _Patched:
+    """temporarily replace module attributes (tolerant: an attribute the module no longer has is
+    simply added and removed again; the trace then fails on its own terms, as a broken tie)"""
+
+    def __init__(self, mod, **attrs):
+        self.mod, self.attrs, self.saved = mod, attrs, {}
+
+    def __enter__(self):
+        for k, v in self.attrs.items():
+            self.saved[k] = getattr(self.mod, k, _MISSING)
+            setattr(self.mod, k, v)
+        return self
+
+    def __exit__(self, *exc):
+        for k, v in self.saved.items():
+            if v is _MISSING:
+                try:
+                    delattr(self.mod, k)
+                except AttributeError:
+                    pass
+            else:
+                setattr(self.mod, k, v)
+        return False
+
+
+_CLOSE = "first | se_close | (split <;> se_close) | (repeat' split) <;> se_close"
+
+
 def _symbolic_ties(ctx):
     import soundevent.io.crowsetta.segment as segmod
     import soundevent.io.crowsetta.bbox as boxmod
-    saved = (segmod.data, segmod.label_to_tags, boxmod.data, boxmod.label_to_tags, boxmod.label_from_tags, boxmod.compute_bounds)
-    segmod.data = _StubData
-    boxmod.data = _StubData
-    segmod.label_to_tags = lambda label, **kw: []
-    boxmod.label_to_tags = lambda label, **kw: []
-    boxmod.label_from_tags = lambda tags, **kw: "x"
-    try:
+    V = ["os", "oe", "ns", "ne", "sr", "te"]
+    os_, oe, ns, ne, sr, te = [Sym.var(v) for v in V]
+    with _Patched(segmod, data=_StubData, label_to_tags=lambda label, **kw: []):
         # --- segment_to_annotation: every presence pattern of the four time fields x adjust
-        V = ["os", "oe", "ns", "ne", "sr", "te"]
-        os_, oe, ns, ne, sr, te = [Sym.var(v) for v in V]
         for po, pe, pn, pm, adjust in itertools.product([True, False], repeat=5):
             name = "ext_seg_" + "".join("sn"[not p] for p in (po, pe, pn, pm)) + ("_adj" if adjust else "_raw")
             seg = NS(label="x", onset_s=os_ if po else None, offset_s=oe if pe else None,
@@ -739,13 +779,15 @@ def _symbolic_ties(ctx):
                 c = a.sound_event.geometry.coordinates
                 assert len(c) == 2 and a.sound_event.geometry.type == "TimeInterval"
                 return (c[0], c[1])
-            _tie(ctx, name, thunk, V, "Rat × Rat",
-                 f"SE.Crowsetta.segTimes {_opt('os', po)} {_opt('oe', pe)} {_opt('ns', pn)} {_opt('ne', pm)} sr te "
-                 f"{'true' if adjust else 'false'}",
-                 "SE.Crowsetta.segTimes SE.Crowsetta.fileTime SE.Crowsetta.adjTime", "import_segment")
-        # --- bbox_to_annotation
-        V = ["onset", "offset", "lo", "hi", "te"]
-        on, off, lo, hi, te = [Sym.var(v) for v in V]
+            ctx.sym_tie(name, thunk, V, "Rat × Rat",
+                        f"SE.Crowsetta.segTimes {_opt('os', po)} {_opt('oe', pe)} {_opt('ns', pn)} {_opt('ne', pm)} sr te "
+                        f"{'true' if adjust else 'false'}",
+                        tactic=f"unfold {name} SE.Crowsetta.segTimes SE.Crowsetta.fileTime SE.Crowsetta.adjTime\n  {_CLOSE}",
+                        meta={"op": "import_segment"})
+    # --- bbox_to_annotation
+    V = ["onset", "offset", "lo", "hi", "te"]
+    on, off, lo, hi, te = [Sym.var(v) for v in V]
+    with _Patched(boxmod, data=_StubData, label_to_tags=lambda label, **kw: []):
         for adjust in (True, False):
             name = "ext_box_import" + ("_adj" if adjust else "_raw")
             box = NS(label="x", onset=on, offset=off, low_freq=lo, high_freq=hi)
@@ -756,38 +798,23 @@ def _symbolic_ties(ctx):
                 c = a.sound_event.geometry.coordinates
                 assert len(c) == 4 and a.sound_event.geometry.type == "BoundingBox"
                 return tuple(c)
-            _tie(ctx, name, thunk, V, "Rat × Rat × Rat × Rat",
-                 f"some (SE.Crowsetta.boxCoords onset offset lo hi te {'true' if adjust else 'false'})",
-                 "SE.Crowsetta.boxCoords SE.Crowsetta.adjTime SE.Crowsetta.adjFreq", "import_bbox")
-        # --- bbox_from_annotation: Nyquist cap and crowsetta's own BBox validators, bounds symbolic
-        V = ["s", "lo", "e", "hi", "sr"]
-        s, lo, e, hi, sr = [Sym.var(v) for v in V]
-        boxmod.compute_bounds = lambda g: (s, lo, e, hi)
-        obj = NS(sound_event=NS(geometry=NS(type="BoundingBox"), recording=NS(samplerate=sr)), tags=[])
+            ctx.sym_tie(name, thunk, V, "Rat × Rat × Rat × Rat",
+                        f"some (SE.Crowsetta.boxCoords onset offset lo hi te {'true' if adjust else 'false'})",
+                        tactic=f"unfold {name} SE.Crowsetta.boxCoords SE.Crowsetta.adjTime SE.Crowsetta.adjFreq\n  {_CLOSE}",
+                        meta={"op": "import_bbox"})
+    # --- bbox_from_annotation: Nyquist cap and crowsetta's own BBox validators, bounds symbolic
+    V = ["s", "lo", "e", "hi", "sr"]
+    s, lo, e, hi, sr = [Sym.var(v) for v in V]
+    with _Patched(boxmod, compute_bounds=lambda g: (s, lo, e, hi), label_from_tags=lambda tags, **kw: "x"):
+        obj = NS(sound_event=NS(geometry=_G(None, "BoundingBox"), recording=NS(samplerate=sr)), tags=[])
 
         def thunk():
             b = boxmod.bbox_from_annotation(obj)
             return (b.onset, b.offset, b.low_freq, b.high_freq)
-        _tie(ctx, "ext_box_export", thunk, V, "Rat × Rat × Rat × Rat",
-             "(match SE.Crowsetta.mkBBox s e lo (min hi (sr / 2)) \"x\" with\n"
-             "      | .ok b => some (b.onset, b.offset, b.lowFreq, b.highFreq)\n      | .error _ => none)",
-             "SE.Crowsetta.mkBBox", "export_bbox")
-    finally:
-        (segmod.data, segmod.label_to_tags, boxmod.data, boxmod.label_to_tags, boxmod.label_from_tags,
-         boxmod.compute_bounds) = saved
-
-
-def _tie(ctx, name, thunk, V, ret, model_term, unfolds, op):
-    try:
-        src, _tree, n = st.extract(name, thunk, V, ret)
-    except Exception as e:  # noqa: BLE001 - the code left the traceable fragment (or a stub no longer fits)
-        ctx.symbolic_ties[name] = {"paths": 0, "error": repr(e)[:200]}
-        ctx.fail("obligation", name, detail="symbolic trace failed: %r" % (e,), extra={"op": op})
-        return
-    ctx.symbolic_ties[name] = {"paths": n}
-    ctx.obligation(name, st.tie_obligation(
-        name, src, V, model_term, [],
-        tactic=f"unfold {name} {unfolds}\n  first | se_close | (split <;> se_close) | (repeat' split) <;> se_close"), {"op": op})
+        ctx.sym_tie("ext_box_export", thunk, V, "Rat × Rat × Rat × Rat",
+                    "(match SE.Crowsetta.mkBBox s e lo (min hi (sr / 2)) \"x\" with\n"
+                    "      | .ok b => some (b.onset, b.offset, b.lowFreq, b.highFreq)\n      | .error _ => none)",
+                    tactic=f"unfold ext_box_export SE.Crowsetta.mkBBox\n  {_CLOSE}", meta={"op": "export_bbox"})
 
 
 # ====================================================================== generators
@@ -1140,17 +1167,12 @@ def _count(ctx, key, cases):
     return cases
 
 
-def run(ctx):
-    ctx.run_corpus(OPS)
-    # ties 1 and 1b
-    _defaults_obligation(ctx)
-    _symbolic_ties(ctx)
-    ctx.discharge(["SoundeventModel.Crowsetta", "SoundeventModel.Tactics"])
-    defaults = ctx.model("defaults", {})
-    rng = ctx.rng
-    full = ctx.thorough()
+def _model_defaults(ctx):
+    return ctx.model("defaults", {})
 
-    # (a) the abstracted option space of both cascades, exhaustively
+
+def _stage_cascades(ctx):
+    full = ctx.thorough()
     ctx.run_cases(OPS["term_key"], [{"key": k} for k in ["crowsetta", "", "a b", "species", "ü:1", "k1"]])
     c = _count(ctx, "enum:label_to_tags", enum_label_to_tags(full))
     ctx.run_cases(OPS["label_to_tags"], c)
@@ -1168,7 +1190,9 @@ def run(ctx):
                                                  + ("" if full else " (thinned in the quick tier)"))
     ctx.run_cases(OPS["label_from_tags"], [{"tags": t, "opts": o, "as_tuple": True} for t in TAG_LISTS for o in TAGS_OPTS])
 
-    # (b) numeric correspondence through real crowsetta objects
+
+def _stage_import(ctx):
+    rng = ctx.rng
     n = ctx.budget(1200, 20000)
     ctx.run_cases(OPS["import_segment"], _count(ctx, "import_segment:pow2", gen_import_segment(rng, n, POW2_TE, POW2_SR)))
     ctx.run_cases(OPS["import_segment_r1"], _count(ctx, "import_segment:seconds,decimal te",
@@ -1184,6 +1208,10 @@ def run(ctx):
          "rec": {"samplerate": rng.choice(POW2_SR), "te": rng.choice(POW2_TE)}, "adjust": rng.random() < 0.7,
          "opts": rng.choice(LABEL_OPTS)} for _ in range(ctx.budget(300, 4000))])
     ctx.run_cases(OPS["import_annotation"], gen_import_annotation(rng, ctx.budget(300, 4000)))
+
+
+def _stage_export(ctx, defaults):
+    rng = ctx.rng
     reps = ctx.budget(12, 150)
     ctx.run_cases(OPS["export_segment"], _count(ctx, "export_segment:9 types x cast", gen_export_segment(rng, reps, defaults)))
     ctx.run_cases(OPS["export_bbox"], _count(ctx, "export_bbox:9 types x cast x raise", gen_export_bbox(rng, reps // 2, defaults)))
@@ -1191,7 +1219,9 @@ def run(ctx):
     ctx.run_cases(OPS["export_sequence"], gen_export_sequence(rng, ctx.budget(300, 4000), defaults))
     ctx.run_cases(OPS["export_annotation"], gen_export_annotation(rng, ctx.budget(300, 4000), defaults))
 
-    # (c) the round trip through real crowsetta objects: correspondence + monitor
+
+def _stage_roundtrip(ctx):
+    rng = ctx.rng
     m = ctx.budget(500, 8000)
     ctx.run_cases(OPS["roundtrip_segment"], gen_rt_segment(rng, m))
     ctx.run_cases(OPS["roundtrip_segment_free"], gen_rt_segment_free(rng, m))
@@ -1201,11 +1231,27 @@ def run(ctx):
     ctx.run_cases(OPS["roundtrip_annotation"], gen_rt_annotation(rng, m // 2))
 
 
+def run(ctx):
+    ctx.stage("corpus", ctx.run_corpus, OPS)
+    # ties 1 and 1b
+    ctx.stage("keyword-defaults", _defaults_obligation, ctx)
+    ctx.stage("symbolic-ties", _symbolic_ties, ctx)
+    ctx.stage("discharge", ctx.discharge, ["SoundeventModel.Crowsetta", "SoundeventModel.Tactics"])
+    defaults = _model_defaults(ctx)
+    # (a) the abstracted option space of both cascades, exhaustively
+    ctx.stage("cascades", _stage_cascades, ctx)
+    # (b) numeric correspondence through real crowsetta objects
+    ctx.stage("import", _stage_import, ctx)
+    ctx.stage("export", _stage_export, ctx, defaults)
+    # (c) the round trip through real crowsetta objects: correspondence + monitor
+    ctx.stage("roundtrip", _stage_roundtrip, ctx)
+
+
 def search(ctx, failures):
     """a tie broke without a concrete failing input so far: widen the scopes of the affected operations"""
     ops = {f.extra.get("op") or f.op for f in failures}
     rng = ctx.rng
-    defaults = ctx.model("defaults", {})
+    defaults = _model_defaults(ctx)
     if ops & {"import_segment", "import_segment_r1", "import_segment_tol", "import_sequence"} or not ops & set(OPS):
         ctx.run_cases(OPS["import_segment"], gen_import_segment(rng, 6000, POW2_TE, POW2_SR))
         ctx.run_cases(OPS["import_segment_r1"], gen_import_segment(rng, 3000, DEC_TE + POW2_TE, INT_SR, seconds="seconds"))
